@@ -1,0 +1,65 @@
+//go:build verif
+
+package kv
+
+import (
+	"github.com/lindb/lindb/kv/version"
+	"github.com/lindb/lindb/pkg/lockers"
+)
+
+// VerifC01Seams are the package-level I/O seams of package kv (all optional).
+type VerifC01Seams struct {
+	Remove      func(name string) error
+	RemoveDir   func(path string) error
+	ListDir     func(path string) ([]string, error)
+	MkDir       func(path string) error
+	EncodeToml  func(fileName string, v interface{}) error
+	NewFileLock func(fileName string) (lockers.FileLock, error)
+}
+
+// VerifC01SetSeams replaces the given seams and returns a function restoring the previous ones.
+// Verification hook (C01): no production code path calls it.
+func VerifC01SetSeams(s VerifC01Seams) (restore func()) {
+	oR, oRD, oL, oM, oE, oFL := removeFunc, removeDirFunc, listDirFunc, mkDirFunc, encodeTomlFunc, newFileLockFunc
+	if s.Remove != nil {
+		removeFunc = s.Remove
+	}
+	if s.RemoveDir != nil {
+		removeDirFunc = s.RemoveDir
+	}
+	if s.ListDir != nil {
+		listDirFunc = s.ListDir
+	}
+	if s.MkDir != nil {
+		mkDirFunc = s.MkDir
+	}
+	if s.EncodeToml != nil {
+		encodeTomlFunc = s.EncodeToml
+	}
+	if s.NewFileLock != nil {
+		newFileLockFunc = s.NewFileLock
+	}
+	return func() {
+		removeFunc, removeDirFunc, listDirFunc, mkDirFunc, encodeTomlFunc, newFileLockFunc = oR, oRD, oL, oM, oE, oFL
+	}
+}
+
+// VerifC01CurrentSeams returns the seams currently installed (to wrap them).
+func VerifC01CurrentSeams() VerifC01Seams {
+	return VerifC01Seams{Remove: removeFunc, RemoveDir: removeDirFunc, ListDir: listDirFunc, MkDir: mkDirFunc,
+		EncodeToml: encodeTomlFunc, NewFileLock: newFileLockFunc}
+}
+
+// VerifC01CompactSync runs the body of the background compaction goroutine synchronously.
+func VerifC01CompactSync(f Family) error { return f.(*family).backgroundCompactionJob() }
+
+// VerifC01CommitEditLog commits an edit log through the family's production commit path.
+func VerifC01CommitEditLog(f Family, el version.EditLog) bool { return f.commitEditLog(el) }
+
+// VerifC01Numbers returns the version set's in-memory manifest number and next file number.
+func VerifC01Numbers(s Store) (manifest, next int64) {
+	st := s.(*store)
+	return st.versions.ManifestFileNumber().Int64(), verifC01Next(st.versions)
+}
+
+func verifC01Next(vs version.StoreVersionSet) int64 { return version.VerifC01NextFileNumber(vs) }
